@@ -41,6 +41,7 @@ type Observer interface {
 }
 
 type Engine struct {
+	unroll map[*ssa.BasicBlock]bool
 	p   *Prog
 	eff *Effects
 
@@ -1101,6 +1102,34 @@ type edgeEnv struct {
 func (eng *Engine) pushCtx(tag string) { eng.ctx = append(eng.ctx, tag) }
 func (eng *Engine) popCtx()            { eng.ctx = eng.ctx[:len(eng.ctx)-1] }
 
+// unrollable: a range loop with a small constant trip count over a local table of functions. Its
+// iterations are kept apart (the range index stays a constant in each state), so that each iteration
+// calls exactly the function of its slot instead of "one of them".
+func (eng *Engine) unrollable(h *ssa.BasicBlock) bool {
+	if v, ok := eng.unroll[h]; ok {
+		return v
+	}
+	res := false
+	if ifi, ok := h.Instrs[len(h.Instrs)-1].(*ssa.If); ok {
+		if cmp, ok := ifi.Cond.(*ssa.BinOp); ok && cmp.Op == token.LSS {
+			if k, ok := cmp.Y.(*ssa.Const); ok && k.Value != nil && k.Int64() > 0 && k.Int64() <= 8 {
+				for _, lb := range loopBody(h) {
+					for _, in := range lb.Instrs {
+						if ix, ok := in.(*ssa.Index); ok && ix.Index == cmp.X && len(funcTableOf(ix.X)) == int(k.Int64()) {
+							res = true
+						}
+					}
+				}
+			}
+		}
+	}
+	if eng.unroll == nil {
+		eng.unroll = map[*ssa.BasicBlock]bool{}
+	}
+	eng.unroll[h] = res
+	return res
+}
+
 func isLoopHeader(b *ssa.BasicBlock) bool {
 	for _, p := range b.Preds {
 		if b.Dominates(p) {
@@ -1291,7 +1320,7 @@ func (eng *Engine) runFunction(fn *ssa.Function, env *Env, args []AV) []Outcome 
 		}
 		e.gc(eng.pinned)
 		eng.checkEnv(e, "after-gc:"+fn.Name())
-		if isLoopHeader(b) || s.forced {
+		if (isLoopHeader(b) && !eng.unrollable(b)) || s.forced {
 			if s.joined == nil {
 				s.joined = e
 				s.key = allVals(e, b)
